@@ -137,7 +137,12 @@ class Discharger:
         return out
 
     def guards(self, f: Func, node: ast.AST) -> List[Tuple[ast.AST, bool]]:
-        return self._inline_guards(f, node) + self._dominating_conds(f, node)
+        out = []
+        for t, tr in self._inline_guards(f, node) + self._dominating_conds(f, node):
+            while isinstance(t, ast.UnaryOp) and isinstance(t.op, ast.Not):
+                t, tr = t.operand, not tr
+            out.append((t, tr))
+        return out
 
     @staticmethod
     def _truthy_of(test: ast.AST, truth: bool, expr_src: str) -> bool:
@@ -174,9 +179,9 @@ class Discharger:
     def regex_groups_of(self, f: Func, name: str, _seen: Optional[Set[str]] = None) -> Optional[int]:
         """Number of groups of the tuple bound to local `name` when it comes from a regex helper with a folded pattern."""
         _seen = _seen or set()
-        if name in _seen:
+        if (f.qualname, name) in _seen:
             return None
-        _seen = _seen | {name}
+        _seen = _seen | {(f.qualname, name)}
         env = self.ctx.folder.local_env(f)
         for n in own_nodes(f.node):
             if isinstance(n, (ast.Assign, ast.AnnAssign, ast.NamedExpr)) and n.value is not None:
@@ -194,7 +199,61 @@ class Discharger:
                 # items = [s.strip() for s in _items]
                 if isinstance(t, ast.Name) and t.id == name and isinstance(n.value, ast.ListComp) and len(n.value.generators) == 1 and isinstance(n.value.generators[0].iter, ast.Name):
                     return self.regex_groups_of(f, n.value.generators[0].iter.id, _seen)
+        # a parameter of a private helper: what every caller passes
+        if name in f.params and f.name.startswith("_") and len(_seen) < 4:
+            sites = self._call_sites(f)
+            gs = []
+            for g, call in sites:
+                a = self._arg_for(f, call, name)
+                if not isinstance(a, ast.Name):
+                    return None
+                r = self.regex_groups_of(g, a.id, _seen)
+                if r is None:
+                    return None
+                gs.append(r)
+            if gs:
+                return min(gs)
         return None
+
+    def _call_sites(self, f: Func) -> List[Tuple[Func, ast.Call]]:
+        out = []
+        for g in self.ctx.prog.funcs:
+            for e in self.ctx.cg.all_edges(g):
+                if e.target is f and isinstance(e.site, ast.Call) and not e.weak and e.kind == "call":
+                    if not any(c is e.site for _, c in out):
+                        out.append((g, e.site))
+        return out
+
+    @staticmethod
+    def _arg_for(f: Func, call: ast.Call, param: str) -> Optional[ast.AST]:
+        params = list(f.params)
+        if f.kind in ("method", "getter", "setter", "classmethod") and params:
+            params = params[1:]
+        for k in call.keywords:
+            if k.arg == param:
+                return k.value
+        if param in params:
+            i = params.index(param)
+            if i < len(call.args):
+                return call.args[i]
+        return None
+
+    def _param_nonempty(self, f: Func, param: str) -> Optional[str]:
+        """`param` of a private helper is non-empty: every call site passes a local it has tested non-empty."""
+        if param not in f.params or not f.name.startswith("_"):
+            return None
+        if any(isinstance(x, ast.Name) and x.id == param and isinstance(x.ctx, (ast.Store, ast.Del)) for x in own_nodes(f.node)):
+            return None
+        sites = self._call_sites(f)
+        if not sites:
+            return None
+        for g, call in sites:
+            a = self._arg_for(f, call, param)
+            if not isinstance(a, ast.Name):
+                return None
+            if not (any(self._truthy_of(t, tr, a.id) for t, tr in self.guards(g, call)) or self._nonempty_guard(g, call, a.id)):
+                return None
+        return f"every caller of {f.qualname} ({', '.join(sorted({g.qualname for g, _ in sites}))}) passes a `{param}` it has tested non-empty"
 
     # ---- subscripts
     def subscript(self, f: Func, n: ast.Subscript) -> Optional[str]:  # noqa: C901
@@ -248,6 +307,10 @@ class Discharger:
                 for test, truth in self.guards(f, n):
                     if self._truthy_of(test, truth, bs):
                         return f"`{bs}` is tested non-empty before"
+                if isinstance(base, ast.Name):
+                    why = self._param_nonempty(f, base.id)
+                    if why:
+                        return why
                 # split(sep) always yields at least one element
                 b2 = base
                 if isinstance(b2, ast.Name):
@@ -264,6 +327,9 @@ class Discharger:
                 # loop variable over a truthiness-filtered list (each element non-empty)
                 if isinstance(base, ast.Name):
                     why = self._nonempty_elements(f, n, base.id)
+                    if why:
+                        return why
+                    why = self._yields_nonempty(f, n, base.id)
                     if why:
                         return why
             # isinstance tuple with re.findall provenance (findall helpers)
@@ -346,7 +412,47 @@ class Discharger:
                     return f"guarded by `{bs}.get({src(idx)}) is not None`"
             if truth and isinstance(test, ast.Compare) and isinstance(test.ops[0], ast.In) and src(test.left) == src(idx) and src(test.comparators[0]) == bs:
                 return f"guarded by `{src(idx)} in {bs}`"
+            if not truth and isinstance(test, ast.Compare) and isinstance(test.ops[0], ast.NotIn) and src(test.left) == src(idx) and src(test.comparators[0]) == bs:
+                return f"guarded by `{src(idx)} not in {bs}` being false"
+        # `if key not in d: raise/return` earlier in the function (the statement is reachable only when the key is there)
+        cfg = self.cfg(f)
+        target = cfg.node_containing(n)
+        if target is not None:
+            cut = set()
+            for c in cfg.live:
+                if c.kind == "cond" and isinstance(c.ast, ast.Compare) and len(c.ast.ops) == 1 and src(c.ast.left) == src(idx) and src(c.ast.comparators[0]) == bs:
+                    if isinstance(c.ast.ops[0], ast.In):
+                        cut.add((c.id, "F"))
+                    elif isinstance(c.ast.ops[0], ast.NotIn):
+                        cut.add((c.id, "T"))
+            if cut:
+                # cut the edges on which the key is absent: the lookup must become unreachable... (i.e. every path to it
+                # passes a test that found the key) -- and neither the key variable nor the dict is re-bound in between
+                from .common import reachable_without_edges
+
+                keep = {(c_, l_) for (c_, l_) in cut}
+                present_only = reachable_without_edges(cfg, cfg.entry, set())
+                absent_reach = self._reach_only_via(cfg, keep)
+                if target in present_only and target not in absent_reach and not self._rebinds_between(f, src(idx), bs):
+                    return f"every path to the lookup passed a membership test of `{src(idx)}` in `{bs}` that held"
         return None
+
+    def _reach_only_via(self, cfg: CFG, absent_edges) -> Set[Node]:
+        """Nodes reachable from the entry when every membership test is answered 'absent' (present edges removed)."""
+        present = set()
+        for (cid, lab) in absent_edges:
+            present.add((cid, "T" if lab == "F" else "F"))
+        from .common import reachable_without_edges
+
+        return reachable_without_edges(cfg, cfg.entry, present)
+
+    def _rebinds_between(self, f: Func, key_src: str, dict_src: str) -> bool:
+        """The dict or the key variable is bound more than once in the function (a loop target counts once)."""
+        for nm in (dict_src, key_src):
+            stores = [x for x in own_nodes(f.node) if isinstance(x, ast.Name) and isinstance(x.ctx, ast.Store) and x.id == nm]
+            if len(stores) > 1:
+                return True
+        return False
 
     def _len_ge(self, test: ast.AST, truth: bool, expr: str, need: int) -> bool:
         return truth and isinstance(test, ast.Compare) and src(test.left) == f"len({expr})" and isinstance(test.ops[0], ast.GtE) and isinstance(test.comparators[0], ast.Constant) and test.comparators[0].value >= need
@@ -406,6 +512,36 @@ class Discharger:
                     cand = defs[-1] if len(defs) == 1 else None
                 if isinstance(cand, ast.Call) and isinstance(cand.func, ast.Attribute) and cand.func.attr == "split" and not cand.args and not cand.keywords:
                     return f"`{var}` is a word of {src(cand)}: str.split() without a separator yields no empty strings"
+            p = getattr(p, "_parent", None)
+        return None
+
+    def _yields_nonempty(self, f: Func, node: ast.AST, var: str) -> Optional[str]:
+        """var is the variable of a loop over g(...) where g is a package generator that only yields values it has
+        tested non-empty (or one-element-or-longer list literals)."""
+        p = getattr(node, "_parent", None)
+        while p is not None and p is not f.node:
+            its = []
+            if isinstance(p, ast.For) and src(p.target) == var:
+                its.append(p.iter)
+            if isinstance(p, (ast.ListComp, ast.SetComp, ast.GeneratorExp, ast.DictComp)):
+                its += [g.iter for g in p.generators if src(g.target) == var]
+            for it in its:
+                if not isinstance(it, ast.Call):
+                    continue
+                for g in self._callees(f, it):
+                    ys = [n for n in own_nodes(g.node) if isinstance(n, ast.Yield)]
+                    if not ys or any(isinstance(n, ast.YieldFrom) for n in own_nodes(g.node)):
+                        continue
+                    ok = True
+                    for y in ys:
+                        v = y.value
+                        if isinstance(v, (ast.List, ast.Tuple)) and v.elts:
+                            continue
+                        if isinstance(v, ast.Name) and any(self._truthy_of(t, tr, v.id) for t, tr in self.guards(g, y)):
+                            continue
+                        ok = False
+                    if ok:
+                        return f"`{var}` is yielded by {g.qualname}, which only yields values it has tested non-empty"
             p = getattr(p, "_parent", None)
         return None
 
@@ -525,6 +661,12 @@ class Discharger:
                     ks_all.append({k.arg for k in v.keywords if k.arg})
                 elif isinstance(v, ast.Dict):
                     ks_all.append({k.value for k in v.keys if isinstance(k, ast.Constant)})
+                elif isinstance(v, ast.Call) and self._callees(g, v):
+                    # the record is built by a helper: keys of every dict it returns
+                    sub = [self._returned_keys(h_) for h_ in self._callees(g, v)]
+                    if any(x is None for x in sub):
+                        return None
+                    ks_all.extend(sub)
                 else:
                     return None
         if not ks_all:
@@ -599,6 +741,12 @@ class Discharger:
                     ks_all.append({k.arg for k in v.keywords if k.arg})
                 elif isinstance(v, ast.Dict):
                     ks_all.append({k.value for k in v.keys if isinstance(k, ast.Constant)})
+                elif isinstance(v, ast.Call) and self._callees(g, v):
+                    # the record is built by a helper: keys of every dict it returns
+                    sub = [self._returned_keys(h_) for h_ in self._callees(g, v)]
+                    if any(x is None for x in sub):
+                        return None
+                    ks_all.extend(sub)
                 else:
                     return None
         if not ks_all:
@@ -677,6 +825,8 @@ class Discharger:
         for p in function_paths(ctx.cfg(li)):
             if p.raises and any(src(t) == li.params[1] and not tr for t, tr in p.atoms):
                 ok1 = True
+        from .normalise import normalised as _norm
+
         fwd = ctx.func("Port._items_to_ports")
         ok2 = True
         for g in ctx.prog.funcs:
@@ -691,42 +841,64 @@ class Discharger:
                     ok2 = ok2 and good
         return (ok1 and ok2, "Port._line__items_to_ints raises on an empty operand list and is the only producer of the argument of _items_to_ports")
 
-    def _fact_bucket_key_exists(self) -> Tuple[bool, str]:
-        """In Acl.group the running heading is always a key of the bucket dict when it is used as one."""
+    def _bucket_key_rule(self, f: Func, use: ast.Subscript) -> Optional[str]:
+        """`D[k]` with a running key: k's value is a key of D when the lookup runs, because D is created/initialised with
+        k's first value and every re-binding of k is followed by `if <new value> not in D: D[k] = ...`."""
+        if not (isinstance(use.slice, ast.Name) and isinstance(use.value, ast.Name)):
+            return None
         ctx = self.ctx
-        f = ctx.func("Acl.group")
         cfg = ctx.cfg(f)
-        use = [n for n in own_nodes(f.node) if isinstance(n, ast.Subscript) and isinstance(n.ctx, ast.Load) and isinstance(n.slice, ast.Name) and isinstance(n.value, ast.Name)]
-        if not use:
-            return (False, "no bucket lookup found")
-        d, k = use[0].value.id, use[0].slice.id
+        d, k = use.value.id, use.slice.id
+        if d in f.params or k in f.params:
+            return None
         loops = [n for n in cfg.live if n.kind == "for"]
         stores = [n for n in cfg.live if n.kind == "stmt" and isinstance(n.ast, ast.Assign) and isinstance(n.ast.targets[0], ast.Subscript) and src(n.ast.targets[0].value) == d and src(n.ast.targets[0].slice) == k]
-        assigns = [n for n in cfg.live if n.kind == "stmt" and isinstance(n.ast, ast.Assign) and src(n.ast.targets[0]) == k]
-        use_node = cfg.node_containing(use[0])
-        init_ok = any(cfg.dominates(s, use_node) and not any(lp in cfg.reachable(s) and s in cfg.reachable(lp) for lp in loops) for s in stores)
-        # or the dict is created with the key in it: d = {k: ...}
-        for n in cfg.live:
-            if n.kind == "stmt" and isinstance(n.ast, (ast.Assign, ast.AnnAssign)) and isinstance(getattr(n.ast, "value", None), ast.Dict):
-                tg = n.ast.targets[0] if isinstance(n.ast, ast.Assign) else n.ast.target
-                if src(tg) == d and any(kk is not None and src(kk) == k for kk in n.ast.value.keys):
-                    if cfg.dominates(n, use_node) and not any(lp in cfg.reachable(n) and n in cfg.reachable(lp) for lp in loops):
-                        # and k is not re-bound between the literal and the first loop other than through `assigns` below
-                        init_ok = True
-        ok = init_ok
-        for a in assigns:
-            if a is assigns[0] and not any(a in cfg.reachable([x for lab, x in lp.succ if lab == "body"][0]) for lp in loops if [x for lab, x in lp.succ if lab == "body"]):
-                continue  # the initial binding before the loops
-            # after re-binding the key, the next membership test stores the key when it is absent
-            nxt = [s2 for lab, s2 in a.succ]
+        assigns = [n for n in cfg.live if n.kind == "stmt" and isinstance(n.ast, (ast.Assign, ast.AnnAssign)) and getattr(n.ast, "value", None) is not None and src(n.ast.targets[0] if isinstance(n.ast, ast.Assign) else n.ast.target) == k]
+        use_node = cfg.node_containing(use)
+        if use_node is None or not assigns:
+            return None
+        # D must not shrink or be re-bound
+        for x in own_nodes(f.node):
+            if isinstance(x, ast.Call) and isinstance(x.func, ast.Attribute) and src(x.func.value) == d and x.func.attr in ("pop", "popitem", "clear"):
+                return None
+            if isinstance(x, ast.Delete) and any(d in src(t) for t in x.targets):
+                return None
+        d_binds = [n for n in cfg.live if n.kind == "stmt" and isinstance(n.ast, (ast.Assign, ast.AnnAssign)) and src(n.ast.targets[0] if isinstance(n.ast, ast.Assign) else n.ast.target) == d]
+        if len(d_binds) != 1:
+            return None
+
+        def in_loop(n: Node) -> bool:
+            return any(lp in cfg.reachable(n) and n in cfg.reachable(lp) for lp in loops)
+
+        first = assigns[0]
+        if in_loop(first) or not cfg.dominates(first, use_node):
+            return None
+        init_ok = any(cfg.dominates(s_, use_node) and not in_loop(s_) and cfg.dominates(first, s_) for s_ in stores)
+        lit = d_binds[0].ast.value
+        if isinstance(lit, ast.Dict) and not in_loop(d_binds[0]) and cfg.dominates(d_binds[0], use_node):
+            v0 = ctx.folder.fold(first.ast.value, f.module)
+            for kk in lit.keys:
+                if kk is None:
+                    continue
+                if src(kk) == k and cfg.dominates(first, d_binds[0]):
+                    init_ok = True
+                kv = ctx.folder.fold(kk, f.module)
+                if known(kv) and known(v0) and kv == v0 and isinstance(kk, ast.Constant):
+                    init_ok = True
+        if not init_ok:
+            return None
+        for a_ in assigns[1:]:
             good = False
             for c in cfg.live:
-                if c.kind == "cond" and isinstance(c.ast, ast.Compare) and isinstance(c.ast.ops[0], ast.NotIn) and src(c.ast.comparators[0]) == d and cfg.dominates(a, c):
+                if c.kind == "cond" and isinstance(c.ast, ast.Compare) and len(c.ast.ops) == 1 and isinstance(c.ast.ops[0], ast.NotIn) and src(c.ast.comparators[0]) == d and cfg.dominates(a_, c):
+                    if src(c.ast.left) not in (k, src(a_.ast.value)):
+                        continue
                     t = [s2 for lab, s2 in c.succ if lab == "T"]
-                    if t and any(t[0] is s for s in stores):
+                    if t and any(t[0] is s_ for s_ in stores):
                         good = True
-            ok = ok and good
-        return (ok, f"`{k}` is stored as a key of `{d}` before the loop and whenever it is re-bound to a heading that is not yet a key")
+            if not good:
+                return None
+        return f"`{k}` is a key of `{d}` from the start and whenever it is re-bound a membership test stores the new value first"
 
     def _fact_single_group_checked(self) -> Tuple[bool, str]:
         """In _add_addgr_to_aces the list indexed with [0] was filtered by _check_addgr (exactly one group of that name)."""
@@ -789,17 +961,21 @@ class Discharger:
         return None
 
 
-FACT_SITES = {
-    # (function, subscript text) -> fact name
-    ("Acl.group", "grouped_items_d[group_name]"): "bucket_key_exists",
-    ("Port._items_to_ports", "items[0]"): "port_items_nonempty",
-    ("Port._items_to_ports", "items[-1]"): "port_items_nonempty",
-    ("functions._add_addgr_to_aces", "[o for o in addgrs if o.name == addgr_name][0]"): "single_group_checked",
-    ("ConfigParser._parse_mdic", "config_l[i]"): "indent_parser_indices",
-    ("ConfigParser._parse_mdic", "config_l[i + 1]"): "indent_parser_indices",
-    ("ConfigParser._get_indented_dic", "config_l[i]"): "indent_parser_indices",
-    ("ConfigParser._get_indented_dic", "config_l[i + 1]"): "indent_parser_indices",
-}
+def fact_for_site(f: Func, n: ast.Subscript) -> Optional[str]:
+    """Which assume/guarantee fact (checked by Discharger._fact_*) a lookup relies on.  Sites are recognised by role
+    (which parameter is indexed, what kind of expression), not by the spelling of local names."""
+    q = f.qualname
+    base, idx = n.value, n.slice
+    const_idx = isinstance(idx, ast.Constant) or (isinstance(idx, ast.UnaryOp) and isinstance(idx.operand, ast.Constant))
+    if q == "Port._items_to_ports" and isinstance(base, ast.Name) and len(f.params) > 1 and base.id == f.params[1] and const_idx and src(idx) in ("0", "-1"):
+        return "port_items_nonempty"
+    if q == "functions._add_addgr_to_aces" and isinstance(base, ast.ListComp) and src(idx) == "0":
+        return "single_group_checked"
+    if q in ("ConfigParser._parse_mdic", "ConfigParser._get_indented_dic") and isinstance(base, ast.Name) and base.id in f.params and any(isinstance(x, ast.Name) for x in ast.walk(idx)):
+        return "indent_parser_indices"  # the list of config lines indexed by a running line index
+    return None
+
+
 
 
 def r20_1b(ctx: Ctx, rep: Report, sl: Set[Func]) -> None:
@@ -819,7 +995,9 @@ def r20_1b(ctx: Ctx, rep: Report, sl: Set[Func]) -> None:
                 rep.instance()
                 why = dis.subscript(f, n)
                 if why is None:
-                    fk = FACT_SITES.get((f.qualname, src(n)))
+                    why = dis._bucket_key_rule(f, n)
+                if why is None:
+                    fk = fact_for_site(f, n)
                     if fk:
                         ok, text = dis.fact(fk)
                         why = f"fact {fk}: {text}" if ok else None
